@@ -74,6 +74,7 @@ type hdrOpts struct {
 	Twin      bool // compare with a twin repository that never sees refused submissions (C08)
 	RealClean bool // use the exported Clean/Load (prune depth 10000) instead of the hooks
 	Probe     bool // C19 probe: at a seed-chosen step, submit each peer chain's reply and stop
+	ProbeEnd  bool // C19 probe after the last step
 	Seed      int64
 }
 
@@ -256,9 +257,36 @@ func denum(s string) string {
 	}, s)
 }
 
+// fail records a failed comparison. A comparison can belong to several properties ("C09+C11"): a
+// wrong lookup after a Load contradicts both "lookups agree with the tree" and "Load restores the
+// same repository".
 func (w *hdrWorld) fail(prop string, step int, op hdrOp, msg string) {
-	w.div = append(w.div, hdrDiv{Prop: prop, Step: step, Op: op.Op, B: op.B, Msg: msg,
-		Beh: w.behIdx, Sig: prop + " " + denum(msg)})
+	for _, p := range strings.Split(prop, "+") {
+		dup := false
+		for _, d := range w.div {
+			if d.Prop == p && d.Step == step && d.Msg == msg {
+				dup = true
+			}
+		}
+		if dup {
+			continue
+		}
+		w.div = append(w.div, hdrDiv{Prop: p, Step: step, Op: op.Op, B: op.B, Msg: msg,
+			Beh: w.behIdx, Sig: p + " " + denum(msg)})
+	}
+}
+
+// lookupProp: lookups belong to C09 and to the property of the operation that must preserve them.
+func (w *hdrWorld) lookupProp(op hdrOp) string {
+	switch op.Op {
+	case "clean":
+		return "C09+C10"
+	case "save", "load":
+		return "C09+C11"
+	case "mark", "unmark":
+		return "C09+C17"
+	}
+	return "C09"
 }
 
 // sampleHeights returns the heights at which the chain is compared.
@@ -374,7 +402,9 @@ func (w *hdrWorld) run() {
 	S := w.o.S
 
 	probeStep := -1
-	if w.o.Probe && len(w.beh.Ops) > 0 {
+	if w.o.ProbeEnd && len(w.beh.Ops) > 0 {
+		probeStep = len(w.beh.Ops) - 1
+	} else if w.o.Probe && len(w.beh.Ops) > 0 {
 		probeStep = int((w.o.Seed + int64(w.behIdx)*7919) % int64(len(w.beh.Ops)))
 		if probeStep < 0 {
 			probeStep = -probeStep
@@ -501,7 +531,7 @@ func (w *hdrWorld) run() {
 
 		w.observe(step, op, prevExp)
 
-		if needBefore && len(w.div) == 0 {
+		if needBefore {
 			after := w.project()
 			if after != before {
 				prop := "C08"
@@ -698,6 +728,7 @@ func (w *hdrWorld) observe(step int, op hdrOp, prev *hdrExp) {
 
 	// ---- C09 / C17: lookups of every pool block
 	// The best-chain flag is judged against the chain the repository itself reports.
+	lp := w.lookupProp(op)
 	for b := 1; b <= N; b++ {
 		known := inSet(exp.Acc, b)
 		unsure := inSet(exp.Unsure, b)
@@ -726,24 +757,24 @@ func (w *hdrWorld) observe(step int, op hdrOp, prev *hdrExp) {
 			case known && !unsure:
 				w.cmp("C09")
 				if hh != wantHt {
-					w.fail("C09", step, op, fmt.Sprintf("HashHeight(block %d.%d) got %d want %d", b, k, hh, wantHt))
+					w.fail(lp, step, op, fmt.Sprintf("HashHeight(block %d.%d) got %d want %d", b, k, hh, wantHt))
 				}
 				if cerr != nil || ch != wantHt {
-					w.fail("C09", step, op, fmt.Sprintf("CheckHeader(block %d.%d) got %d,%s want %d", b, k, ch, hdrClassify(cerr), wantHt))
+					w.fail(lp, step, op, fmt.Sprintf("CheckHeader(block %d.%d) got %d,%s want %d", b, k, ch, hdrClassify(cerr), wantHt))
 				} else if isL != onReported {
-					w.fail("C09", step, op, fmt.Sprintf("CheckHeader(block %d.%d) in-best flag got %v, reported chain says %v", b, k, isL, onReported))
+					w.fail(lp, step, op, fmt.Sprintf("CheckHeader(block %d.%d) in-best flag got %v, reported chain says %v", b, k, isL, onReported))
 				}
 				if gerr != nil {
-					w.fail("C09", step, op, fmt.Sprintf("GetHeader(block %d.%d) err %s", b, k, hdrClassify(gerr)))
+					w.fail(lp, step, op, fmt.Sprintf("GetHeader(block %d.%d) err %s", b, k, hdrClassify(gerr)))
 				} else {
 					if !gh.BlockHash().Equal(&hash) {
-						w.fail("C09", step, op, fmt.Sprintf("GetHeader(block %d.%d) returns a header with another hash", b, k))
+						w.fail(lp, step, op, fmt.Sprintf("GetHeader(block %d.%d) returns a header with another hash", b, k))
 					}
 					if ght != wantHt {
-						w.fail("C09", step, op, fmt.Sprintf("GetHeader(block %d.%d) height got %d want %d", b, k, ght, wantHt))
+						w.fail(lp, step, op, fmt.Sprintf("GetHeader(block %d.%d) height got %d want %d", b, k, ght, wantHt))
 					}
 					if gl != onReported {
-						w.fail("C09", step, op, fmt.Sprintf("GetHeader(block %d.%d) in-best flag got %v, reported chain says %v", b, k, gl, onReported))
+						w.fail(lp, step, op, fmt.Sprintf("GetHeader(block %d.%d) in-best flag got %v, reported chain says %v", b, k, gl, onReported))
 					}
 				}
 				// predecessor: promised while both are held in memory
@@ -759,19 +790,27 @@ func (w *hdrWorld) observe(step int, op hdrOp, prev *hdrExp) {
 				}
 				if ph != nil {
 					if !ph.Equal(&wantPrev) || pht != wantHt-1 {
-						w.fail("C09", step, op, fmt.Sprintf("PreviousHash(block %d.%d) wrong predecessor or height %d want %d", b, k, pht, wantHt-1))
+						w.fail(lp, step, op, fmt.Sprintf("PreviousHash(block %d.%d) wrong predecessor or height %d want %d", b, k, pht, wantHt-1))
 					}
 				} else if promised {
-					w.fail("C09", step, op, fmt.Sprintf("PreviousHash(block %d.%d) not available", b, k))
+					w.fail(lp, step, op, fmt.Sprintf("PreviousHash(block %d.%d) not available", b, k))
 				}
 			case known && unsure:
+				// Not promised to be retained, but what is reported about it must be right.
+				w.cmp("C09")
 				if hh != -1 && hh != wantHt {
-					w.fail("C09", step, op, fmt.Sprintf("HashHeight(block %d.%d) got %d want %d", b, k, hh, wantHt))
+					w.fail(lp, step, op, fmt.Sprintf("HashHeight(block %d.%d) got %d want %d", b, k, hh, wantHt))
+				}
+				if cerr == nil && (ch != wantHt || isL != onReported) {
+					w.fail(lp, step, op, fmt.Sprintf("CheckHeader(dropped side block %d.%d) got %d,%v want %d,%v or unknown", b, k, ch, isL, wantHt, onReported))
+				}
+				if gerr == nil && (!gh.BlockHash().Equal(&hash) || ght != wantHt || gl != onReported) {
+					w.fail(lp, step, op, fmt.Sprintf("GetHeader(dropped side block %d.%d) returns another header or wrong height/flag (%d,%v)", b, k, ght, gl))
 				}
 			case !ever:
 				w.cmp("C09")
 				if hh != -1 || cerr == nil || gerr == nil || ph != nil {
-					w.fail("C09", step, op, fmt.Sprintf("never accepted block %d.%d is reported known (HashHeight %d, CheckHeader %s, GetHeader %s)", b, k, hh, hdrClassify(cerr), hdrClassify(gerr)))
+					w.fail(lp+"+C08", step, op, fmt.Sprintf("never accepted block %d.%d is reported known (HashHeight %d, CheckHeader %s, GetHeader %s)", b, k, hh, hdrClassify(cerr), hdrClassify(gerr)))
 				}
 			default: // accepted once, removed by an invalid mark
 				w.cmp("C17")
@@ -817,15 +856,21 @@ func (w *hdrWorld) tipProp(op hdrOp) string {
 func (w *hdrWorld) chainProp(op hdrOp, ht int, exp hdrExp) string {
 	switch op.Op {
 	case "clean":
+		if ht < exp.FloorB*w.o.S {
+			return "C10+C09"
+		}
 		return "C10"
 	case "save", "load":
+		if ht < exp.FloorB*w.o.S {
+			return "C11+C09"
+		}
 		return "C11"
 	case "mark", "unmark":
 		return "C17"
 	}
 	// best-chain history below the memory floor is served from storage: lookups (C09)
 	if ht < exp.FloorB*w.o.S {
-		return "C09"
+		return "C09+C01"
 	}
 	return "C01"
 }
@@ -833,9 +878,9 @@ func (w *hdrWorld) chainProp(op hdrOp, ht int, exp hdrExp) string {
 func (w *hdrWorld) rangeProp(op hdrOp, ht int, exp hdrExp) string {
 	switch op.Op {
 	case "clean":
-		return "C10"
+		return "C10+C09"
 	case "save", "load":
-		return "C11"
+		return "C11+C09"
 	}
 	return "C09"
 }
@@ -1023,6 +1068,7 @@ func hdrMain(args []string) int {
 	fs.BoolVar(&o.Twin, "twin", false, "twin repository comparison for refusals")
 	fs.BoolVar(&o.RealClean, "realclean", false, "use exported Clean/Load (prune depth 10000)")
 	fs.BoolVar(&o.Probe, "probe", false, "C19 locator probe at a seed-chosen step")
+	fs.BoolVar(&o.ProbeEnd, "probeend", false, "C19 locator probe after the last step")
 	fs.Int64Var(&o.Seed, "seed", 1, "seed")
 	workers := fs.Int("workers", 16, "parallel workers")
 	in := fs.String("in", "", "behaviour file (jsonl); stdin if empty")
